@@ -1612,13 +1612,33 @@ async fn apply_assignment(
             ShellValueLiteral::Scalar(value)
         }
         ast::AssignmentValue::Array(unexpanded_values) => {
+            // The subscripts of an indexed array are arithmetic expressions; the keys of an
+            // associative array are taken as they are.
+            let keys_are_arithmetic = shell.env().get(variable_name).is_none_or(|(_, existing)| {
+                !matches!(
+                    existing.value(),
+                    ShellValue::AssociativeArray(_)
+                        | ShellValue::Unset(ShellValueUnsetType::AssociativeArray)
+                )
+            });
+
             let mut elements = vec![];
             for (unexpanded_key, unexpanded_value) in unexpanded_values {
                 let key = match unexpanded_key {
-                    Some(unexpanded_key) => Some(
-                        expansion::basic_expand_assignment_word(shell, params, unexpanded_key)
-                            .await?,
-                    ),
+                    Some(unexpanded_key) => {
+                        let key =
+                            expansion::basic_expand_assignment_word(shell, params, unexpanded_key)
+                                .await?;
+                        if keys_are_arithmetic {
+                            Some(
+                                arithmetic::expand_and_eval(shell, params, key.as_str(), false)
+                                    .await?
+                                    .to_string(),
+                            )
+                        } else {
+                            Some(key)
+                        }
+                    }
                     None => None,
                 };
 
